@@ -363,5 +363,26 @@ def run(ck):
         check('get_state_dict', lambda: model.get_state_dict(), args)
         torch.set_num_threads(t0)
         os.environ.pop(ENV, None)
+    # ---- wide data (more features than the width at which the split model's eigenvector routine becomes iterative), a tree that splits, n_threads left at None and a caller
+    #      thread count of 3: the library has no business touching the thread count at all
+    for j in range(ck.n(2, 4)):
+        dW = [300, 420][j % 2]
+        XW = xr.make_X('random', 130, dW, nr); yW = xr.make_y('reg', XW[:, :3], nr); XvW = xr.make_X('random', 30, dW, nr); yvW = xr.make_y('reg', XvW[:, :3], nr)
+        mW = xr.xRFM(rfm_params=xr.default_rfm_params(iters=0, reg=1e-2, bandwidth=20.0), max_leaf_size=70, verbose=False, use_temperature_tuning=False, n_threads=None,
+                     split_method=['top_vector_agop_on_subset', 'top_pc_agop_on_subset'][j % 2])
+        t_before = torch.get_num_threads(); torch.set_num_threads(3)
+        try:
+            with xr.quiet():
+                mW.fit(torch.tensor(XW), torch.tensor(yW), torch.tensor(XvW), torch.tensor(yvW))
+            after_fit = torch.get_num_threads()
+            with xr.quiet():
+                mW.predict(torch.tensor(XW[:9]))
+            after_pred = torch.get_num_threads()
+        finally:
+            torch.set_num_threads(t_before)
+        ck.case(dict(kind='wide data, n_threads=None', d=dW), nontrivial=True); ck.count('wide data with n_threads=None')
+        if after_fit != 3 or after_pred != 3:
+            ck.violation(f'fit / predict on {dW}-dimensional data with n_threads=None left the torch thread count at {after_fit} / {after_pred}, it was 3',
+                         dict(kind='wide', d=dW, after_fit=after_fit, after_predict=after_pred), key=json.dumps(dict(site='threads', call='fit-wide')))
     ck.obligation('correspondence: inside every real fit the probes read the override value and the requested thread count (protocol model: the override is in force between Enter and Exit)',
                   'correspondence', not inside_mismatch, f'first mismatches: {inside_mismatch[:2]}')
